@@ -17,24 +17,27 @@ def _leaf_items(b, is_set):
     return list(flat[0::2]), list(flat[1::2])
 
 
-def collect_leaves(t):
-    """leaves in descent order (objects)"""
-    out = []
+def _collect(node, out):
+    st = node.__getstate__()
+    if st is None:
+        return
+    if len(st) == 1:
+        out.append(node._firstbucket)
+        return
+    for i, x in enumerate(st[0]):
+        if i % 2 == 0:
+            if is_tree(x):
+                _collect(x, out)
+            else:
+                out.append(x)
 
-    def rec(node):
-        st = node.__getstate__()
-        if st is None:
-            return
-        if len(st) == 1:
-            out.append(node._firstbucket)
-            return
-        for i, x in enumerate(st[0]):
-            if i % 2 == 0:
-                if is_tree(x):
-                    rec(x)
-                else:
-                    out.append(x)
-    rec(t)
+
+def collect_leaves(t):
+    """leaves in descent order (objects).  (A module-level helper, not a nested closure: a closure
+    referring to itself is a reference cycle that would keep the leaves alive until the next
+    garbage collection -- the reference ledgers of C14/C16 read reference counts right away.)"""
+    out = []
+    _collect(t, out)
     return out
 
 
